@@ -128,6 +128,8 @@ func (o nodeOpts) dbOptions() DatabaseContextOptions {
 		UseViews:     true,
 		Scopes:       GetScopesOptionsDefaultCollectionOnly(nil),
 		BcryptCost:   4,
+		// as the REST layer's default: history of revoked grants is kept for 30 days
+		ClientPartitionWindow: 30 * 24 * time.Hour,
 	}
 	if o.QueryLimit > 0 {
 		opts.QueryPaginationLimit = o.QueryLimit
@@ -305,3 +307,5 @@ func isHTTPStatus(err error, status int) bool {
 	s, _ := base.ErrorAsHTTPStatus(err)
 	return s == status
 }
+
+func sortedTimedKeys[V any](m map[string]V) []string { return sortedKeys(m) }
